@@ -203,6 +203,9 @@ func typeFromAST(schema Schema, inputTypeAST ast.Type) (Type, error) {
 		ttype := schema.Type(nameValue)
 		return ttype, nil
 	default:
+		if inputTypeAST == nil {
+			return nil, invariant(false, "Must be a named type.")
+		}
 		return nil, invariant(inputTypeAST.GetKind() == kinds.Named, "Must be a named type.")
 	}
 }
